@@ -71,7 +71,8 @@ Inductive event :=
 | ESAdd (t : nat) | ECbStart (t : nat)
 | EBResume (t : nat) (cfg : option Z) | ECbResume (t : nat)    (* backend.resume_trial succeeded *)
 | EStopCond (crit full : bool)                                 (* _stop_condition: criterion value, full value *)
-| EBStopAll.                                                   (* backend.stop_all *)
+| EBStopAll                                                    (* backend.stop_all *)
+| EBBusy (busy : list nat).                                    (* backend.busy_trial_ids() -> ids *)
 
 (* ---- dict keyed by id with insertion order (dict / OrderedDict) ---------- *)
 Fixpoint aget {A} (k : nat) (m : list (nat * A)) : option A :=
@@ -422,7 +423,29 @@ Definition poll (st : state) : state * option error :=
       (set_running st (remove_all (map fst done) (s_running st)), None)
   end.
 
-Fixpoint loop (fuel : nat) (st : state) (c ex : bool) : state * loop_exit :=
+(* ---- start_jobs_without_delay=False: _schedule_new_tasks asks the backend for the busy trials ------------
+   ScriptedBackend.busy_trial_ids looks at every active worker (like LocalBackend, which re-reads the job
+   status) and returns the active ones. Python: when fewer workers are busy than the tuner has running trials,
+   `running_trials_ids = set(x[0] for x in busy_trial_ids)` REBINDS the local name: the trials started in this
+   call are added to that new set, the caller's set (the one the loop polls) is left as it was. *)
+Definition busy_look (st : state) : state * list nat :=
+  let ids := seq 0 (s_ntrials st) in
+  let st1 := all_trial_results ids st in
+  let busy := filter (fun t => active (b_w (s_bt st1 t))) ids in
+  (emit (EBBusy busy) st1, busy).
+
+Definition schedule_new_tasks_busy (st : state) : state * sched_out :=
+  let threshold := if async prm then n_workers prm else 1%nat in
+  let '(st, busy) := busy_look st in
+  let nbusy := length busy in
+  if Nat.leb threshold nbusy then (sleep st, SOk)
+  else if Nat.ltb nbusy (length (s_running st)) then
+    let caller_set := s_running st in
+    let '(st2, r) := schedule_k (n_workers prm - nbusy) (set_running st busy) in
+    (set_running st2 caller_set, r)
+  else schedule_k (n_workers prm - nbusy) st.
+
+Fixpoint loop_gen (sched : state -> state * sched_out) (fuel : nat) (st : state) (c ex : bool) : state * loop_exit :=
   match fuel with
   | O => (st, LFuel)
   | S f =>
@@ -434,18 +457,23 @@ Fixpoint loop (fuel : nat) (st : state) (c ex : bool) : state * loop_exit :=
             if ex || (wait_completion prm && c) then
               match s_running st with
               | [] => (st, LExit None)                       (* break *)
-              | _ :: _ => let '(st, c') := iteration_end (sleep st) in loop f st c' ex
+              | _ :: _ => let '(st, c') := iteration_end (sleep st) in loop_gen sched f st c' ex
               end
             else
-              let '(st, r) := schedule_new_tasks st in
+              let '(st, r) := sched st in
               match r with
               | SErr e => (st, LExit (Some e))
-              | SStopIteration => let '(st, c') := iteration_end st in loop f st c' true
-              | SOk => let '(st, c') := iteration_end st in loop f st c' ex
+              | SStopIteration => let '(st, c') := iteration_end st in loop_gen sched f st c' true
+              | SOk => let '(st, c') := iteration_end st in loop_gen sched f st c' ex
               end
         end
       else (st, LExit None)
   end.
+
+(* the loop of Tuner.run with start_jobs_without_delay=True (default; all theorems are about this one) ... *)
+Definition loop := loop_gen schedule_new_tasks.
+(* ... and with start_jobs_without_delay=False (correspondence and finding only) *)
+Definition loop_b := loop_gen schedule_new_tasks_busy.
 
 Definition run_loop (fuel : nat) : state * loop_exit :=
   let '(st, c) := stop_condition (emit ECbTuningStart init_state) in
@@ -453,6 +481,17 @@ Definition run_loop (fuel : nat) : state * loop_exit :=
 
 Definition run (fuel : nat) : state * outcome :=
   let '(st, ex) := run_loop fuel in
+  match ex with
+  | LFuel => (st, OutOfFuel)
+  | LExit e => finalize st e
+  end.
+
+Definition run_loop_b (fuel : nat) : state * loop_exit :=
+  let '(st, c) := stop_condition (emit ECbTuningStart init_state) in
+  loop_b fuel st c false.
+
+Definition run_b (fuel : nat) : state * outcome :=
+  let '(st, ex) := run_loop_b fuel in
   match ex with
   | LFuel => (st, OutOfFuel)
   | LExit e => finalize st e
@@ -492,6 +531,7 @@ Definition event_code (e : event) : list Z :=
   | ECbResume t => [21; zn t]
   | EStopCond c f => [22; bool_code c; bool_code f]
   | EBStopAll => [23]
+  | EBBusy l => 24 :: map zn l
   end%Z.
 Definition event_eqb (a b : event) : bool := list_eqb Z.eqb (event_code a) (event_code b).
 
